@@ -112,6 +112,17 @@ Definition is_multi (kv : list (pyval * pyval)) : bool :=
 Definition closed_of (kv : list (pyval * pyval)) : bool :=
   negb (py_truthy (getdef kv (K "additionalProperties") (PBool true))).
 
+(* the value schema of a map: additionalProperties when it is truthy (a schema); the model has no patternProperties,
+   maxItems, minItems on a map *)
+Definition map_value_of (sub : pyval -> option jfield) (kv : list (pyval * pyval)) : option (option jfield) :=
+  let ap := getdef kv (K "additionalProperties") PNone in
+  if py_truthy ap then
+    match getdef kv (K "maxItems") PNone, getdef kv (K "minItems") PNone, sub ap with
+    | PNone, PNone, Some v => Some (Some v)
+    | _, _, _ => None
+    end
+  else Some None.
+
 Definition object_of (O : cg_oracle) (sub : pyval -> option jfield) (kv : list (pyval * pyval)) : option jfield :=
   if shas kv "properties" then
     match sget kv "properties", required_of (sget kv "required"), default_of O kv with
@@ -122,31 +133,22 @@ Definition object_of (O : cg_oracle) (sub : pyval -> option jfield) (kv : list (
   else
     if py_truthy (getdef kv (K "patternProperties") PNone) then None
     else
-      match default_of O kv with
-      | None => None
-      | Some d =>
-          let ap := getdef kv (K "additionalProperties") PNone in
-          if py_truthy ap then
-            match getdef kv (K "maxItems") PNone, getdef kv (K "minItems") PNone, sub ap with
-            | PNone, PNone, Some v => Some (FMap (Some v) d)
-            | _, _, _ => None
-            end
-          else Some (FMap None d)
+      match map_value_of sub kv, default_of O kv with
+      | Some value, Some d => Some (FMap value d)
+      | _, _ => None
       end.
+
+Definition pat_of (kv : list (pyval * pyval)) : option (option pystr) :=
+  if shas kv "pattern" then match sget kv "pattern" with Some (PStr p) => Some (Some p) | _ => None end
+  else Some None.
 
 Definition typed_of (O : cg_oracle) (sub : pyval -> option jfield) (kv : list (pyval * pyval)) (t : pystr)
   : option jfield :=
   if pystr_eqb t (K "object") then object_of O sub kv
   else if pystr_eqb t (K "string") then
-    match nums_of O kv string_keys, default_of O kv with
-    | Some nums, Some d =>
-        if shas kv "pattern" then
-          match sget kv "pattern" with
-          | Some (PStr p) => Some (FString nums (Some p) d)
-          | _ => None
-          end
-        else Some (FString nums None d)
-    | _, _ => None
+    match nums_of O kv string_keys, pat_of kv, default_of O kv with
+    | Some nums, Some pat, Some d => Some (FString nums pat d)
+    | _, _, _ => None
     end
   else if pystr_eqb t (K "integer") || pystr_eqb t (K "number") then
     match nums_of O kv number_keys, default_of O kv with
